@@ -6,7 +6,7 @@ use serde::{Deserialize, Serialize};
 use simcore::der::{self, Tlv};
 use simcore::Rng;
 
-use crate::engine::{guarded, Engine, Outcome, Tier};
+use simcore::engine::{guarded, Engine, Outcome, Tier};
 use crate::recipe::{gen_dn_type, gen_dn_value, DnTypeR, DnValueR};
 
 #[derive(Clone, Debug, PartialEq, Eq, Serialize, Deserialize)]
